@@ -39,6 +39,13 @@ def find_shortcut(val):
 
 
 def run(repo, rep):
+    from ..symval import DIV_EVENTS
+    del DIV_EVENTS[:]
+    _run(repo, rep)
+    common.cancellation_rule(repo, rep, [('geodepy.geodesy', 'vincinv')])
+
+
+def _run(repo, rep):
     alg.reset()
     common.state_rule(repo, rep, [('geodepy.geodesy', 'vincinv')])
     common.typecheck_rules(repo, rep)
